@@ -290,7 +290,20 @@ func ruleG3(p *Prog, r *Report) {
 		})
 		okAdd := false
 		why := "no WaitGroup.Add in the launcher"
-		if addCall != nil {
+		// per-launch form: wg.Add(1) immediately before each go statement in the same block
+		for _, x := range g.Block().Instrs {
+			if x == ssa.Instruction(g) {
+				break
+			}
+			if c, ok := x.(*ssa.Call); ok {
+				if f := c.Call.StaticCallee(); f != nil && f.String() == "(*sync.WaitGroup).Add" {
+					if one, ok := constInt(c.Call.Args[1]); ok && one == 1 {
+						okAdd = true
+					}
+				}
+			}
+		}
+		if addCall != nil && !okAdd {
 			why = "WaitGroup.Add does not dominate the go statement"
 			if addCall.Block().Dominates(g.Block()) {
 				why = "go statement is not inside a loop bounded by the value passed to WaitGroup.Add"
